@@ -460,17 +460,18 @@ def judge(case, impl, model, spec):
         return viol, div            # the tokens in front of the command name do not parse as loader options: not generated
     loader_names = set(o['name'] for o in case.get('lspec') or [])
     # ---- (K)
-    late_choices = str(case.get('malformed') or '').startswith('bad-choice-backend') and \
-        'err' in (r1 or {}) and 'err' in model['res']
+    late_choices = str(case.get('malformed') or '').startswith('bad-choice-backend') and 'err' in (r1 or {}) and \
+        ('err' in model['res'] or "'NoneType' object is not callable" in str(r1.get('exc')))
     # (an unknown backend name in a config source: doit attaches the choices of `backend` after overwrite_defaults and
-    #  never validates DOIT_CONFIG -- F-C16e; the model has the choices from the start: only "is an error" is compared)
+    #  never validates DOIT_CONFIG -- F-C16e; the model has the choices from the start and does not model the later
+    #  TypeError: only "is an error" is compared; counted as plugins:bad-choice-backend-*)
     if not late_choices and not same_result(r1, model['res'], case):
         div.append('M4/%s: result differs: impl %s model %s' % (path, canon(res_key(r1))[:300],
                                                                canon(res_key(model['res']))[:300]))
     if path == 'premain' and 'ok' in (r1 or {}) and not same_result(impl.get('setup'), model.get('setup'), case):
         div.append('M4/premain: parameters handed to loader.setup differ: impl %s model %s'
                    % (canon(res_key(impl.get('setup')))[:300], canon(res_key(model.get('setup')))[:300]))
-    if path in ('main', 'premain', 'runtask') and 'exit' in impl and impl['exit'] != model.get('exit'):
+    if path in ('main', 'premain', 'runtask') and 'exit' in impl and impl['exit'] != model.get('exit') and not late_choices:
         div.append('M4/main: DoitMain.run ended with %s, the model with exit %s' % (impl['exit'], model.get('exit')))
     if path in ('parse', 'realcmd') and not impl.get('ctor'):
         if not same_result(impl.get('res2'), model['res2'], case):
